@@ -63,6 +63,13 @@ def gen_cases(p, deg, npairs, rnd, maxpad=2, maxshift=2, ring=False):
         cases.append(dict(base, fn='pow', n=rnd.randint(0, 2)))          # degree <= 2 deg
         if b != 0:
             cases.append(dict(base, fn='divmod'))
+            cases.append(dict(base, fn='mod'))
+            # modulus held in a share LONGER than the dividend's although its degree is not larger (secret leading zeros)
+            la, lb = len(digits(a, p)), len(digits(b, p))
+            if la >= lb and la + 1 - lb <= maxpad + 1 and 2 * (la + 1) - 1 < p:
+                longb = dict(base, pa=0, pb=la + 1 - lb)
+                cases.append(dict(longb, fn='mod'))
+                cases.append(dict(longb, fn='powmod', n=rnd.choice([1, 2, 3])))
             cases.append(dict(base, fn='powmod', n=rnd.randint(-3, 5)))
             cases.append(dict(base, fn='invert'))
         cases.append(dict(base, fn='gcd'))
@@ -101,12 +108,13 @@ async def evaluator(mpc, c, idx, arg):
         v = await mpc.output(x)
         return int(v) % p
     r = {}
+    static = idx % 3 == 0            # the function forms secpoly.add / sub / mul
     if fn == 'add':
-        r['r1'] = await opn(a + b)
+        r['r1'] = await opn(secpoly.add(a, b) if static else a + b)
     elif fn == 'sub':
-        r['r1'] = await opn(a - b)
+        r['r1'] = await opn(secpoly.sub(a, b) if static else a - b)
     elif fn == 'mul':
-        r['r1'] = await opn(a * b)
+        r['r1'] = await opn(secpoly.mul(a, b) if static else a * b)
     elif fn == 'neg':
         r['r1'] = await opn(-a)
     elif fn in ('lt', 'le', 'eq', 'ne', 'ge', 'gt'):
@@ -138,6 +146,8 @@ async def evaluator(mpc, c, idx, arg):
         r['r1'] = await bit(a(x))
     elif fn == 'pow':
         r['r1'] = await opn(a ** n)
+    elif fn == 'mod':
+        r['r1'] = await opn(secpoly.mod(a, b))
     elif fn == 'divmod':
         q, rem = divmod(a, b)
         r['r1'], r['r2'] = await opn(q), await opn(rem)
